@@ -229,7 +229,17 @@ func StartServer() (*Server, error) {
 		}
 		s.Tokens[resp.Token] = uid
 	}
-	l, err := net.Listen("tcp", "127.0.0.1:0")
+	// a busy machine can run out of ephemeral ports for a moment: retry before giving up (the caller reports
+	// "ENV …", which the Lean driver counts as inconclusive)
+	var l net.Listener
+	var err error
+	for try := 0; try < 20; try++ {
+		l, err = net.Listen("tcp", "127.0.0.1:0")
+		if err == nil {
+			break
+		}
+		time.Sleep(time.Duration(50*(try+1)) * time.Millisecond)
+	}
 	if err != nil {
 		return nil, err
 	}
@@ -267,6 +277,10 @@ func WriteFile(suffix string, content string) string {
 // config.DecodeAndValidate -> registered plugin factories) and returns the pool config.
 func DecodePool(yamlText string) (conf *cli.CliConfig, err error) {
 	ImportAll()
+	// pandora decodes its configuration once per process; core/config initialises its hook table lazily and
+	// unguarded, so concurrent decoding by the driver's workers would be a data race of the HARNESS's making.
+	decodeMu.Lock()
+	defer decodeMu.Unlock()
 	defer func() {
 		if r := recover(); r != nil {
 			err = fmt.Errorf("config panic: %v", r)
@@ -285,6 +299,8 @@ func DecodePool(yamlText string) (conf *cli.CliConfig, err error) {
 	}
 	return conf, nil
 }
+
+var decodeMu sync.Mutex
 
 var metricSeq atomic.Int64
 
